@@ -1,3 +1,4 @@
+import json
 """C12 - constraint matrix, limits and names stay aligned under add/remove/update (operation history vs. reference model).
 
 Model-based history checking: no time, no randomness in the SUT; the only 'faults' are rejected operations, which must
@@ -19,8 +20,8 @@ RULE = ("1-8 stations registered in random order, then 1-25 add/remove/update/qu
         "expression trees (leaf forms str/list/dict/Series, +, -, k*a, a*k, a*=k, nested); non-trivial = history with "
         ">=1 remove or update and >=1 composed Current; distinct = distinct operation/expression-shape sequence")
 PROBES = ["composed_current", "scalar_multiple_operand", "remove", "update", "update_new_name", "rejected_unknown_station",
-          "rejected_unknown_name", "late_register_rejected", "subset_query_reordered", "time_subset_query",
-          "duplicate_name", "unnamed", "series_leaf", "json_restart"]
+          "rejected_unknown_name", "late_register_rejected", "subset_query_reordered", "time_subset_query", "time_window_permuted",
+          "duplicate_name", "unnamed", "series_leaf", "json_restart", "plain_series_operand"]
 FAULT_DIMENSION = "restart (network saved to JSON and loaded mid-history); rejected operations (unknown station / unknown name / late register_evse); weakest sense in which the family applies"
 REAL_VS_STUB = "real: ChargingNetwork, Current, EVSE; ours: dict-based reference network (refnet)"
 ASSUMPTIONS = ["row order is only required to be aligned with constraint_index (the position of an updated row is not constrained)",
@@ -32,7 +33,10 @@ def candidates(sc):
     return ops_candidates(sc, "ops")
 
 
-def gen_expr(r, stations, depth=0):
+def gen_expr(r, stations, depth=0, plain_ok=False):
+    """plain_ok: this sub-expression may evaluate to a plain pandas Series (unary minus, division by a scalar) because it is
+    one operand of a + / - whose other operand is a Current (Current.__radd__/__rsub__/__add__/__sub__ take such operands);
+    a plain Series combined with a plain Series, or handed to add_constraint, never touches the Current algebra."""
     k = r.random()
     if depth >= 3 or k < 0.4:
         form = r.choice(["str", "list", "dict", "dict", "series"])
@@ -44,12 +48,18 @@ def gen_expr(r, stations, depth=0):
             return {"k": "leaf", "form": "list", "terms": {m: 1 for m in mem}}
         return {"k": "leaf", "form": form,
                 "terms": {m: r.choice([1, 1, -1, 0.25, -0.5, 2, round(r.uniform(-3, 3), 2) or 1]) for m in mem}}
-    if k < 0.6:
-        return {"k": "add", "a": gen_expr(r, stations, depth + 1), "b": gen_expr(r, stations, depth + 1)}
     if k < 0.8:
-        return {"k": "sub", "a": gen_expr(r, stations, depth + 1), "b": gen_expr(r, stations, depth + 1)}
-    return {"k": "mul", "c": r.choice([2, 0.25, -1, 0.5, 3, 1 / 4, round(r.uniform(-2, 2), 2) or 1]),
-            "side": r.choice(["l", "r", "i"]), "a": gen_expr(r, stations, depth + 1)}
+        pa = r.random() < 0.5
+        return {"k": "add" if k < 0.6 else "sub", "a": gen_expr(r, stations, depth + 1, plain_ok=pa),
+                "b": gen_expr(r, stations, depth + 1, plain_ok=not pa)}
+    if k < 0.9 or not plain_ok:
+        return {"k": "mul", "c": r.choice([2, 0.25, -1, 0.5, 3, 1 / 4, round(r.uniform(-2, 2), 2) or 1]),
+                "side": r.choice(["l", "r", "i"]), "a": gen_expr(r, stations, depth + 1)}
+    # unary minus / division by a scalar: scalar multiples spelled differently (-a == -1*a, a/2 == 0.5*a)
+    if k < 0.95:
+        return {"k": "mul", "c": -1, "side": "neg", "a": gen_expr(r, stations, depth + 1)}
+    d_ = r.choice([2, 4, 0.5, -2])
+    return {"k": "mul", "c": 1.0 / d_, "div": d_, "side": "div", "a": gen_expr(r, stations, depth + 1)}
 
 
 def ev_model(e):
@@ -86,6 +96,10 @@ def ev_real(e):
         return e["c"] * a
     if e["side"] == "r":
         return a * e["c"]
+    if e["side"] == "neg":
+        return -a
+    if e["side"] == "div":
+        return a / e["div"]
     a *= e["c"]
     return a
 
@@ -227,6 +241,8 @@ def check(sc):
                         out.probe("composed_current")
                     if has_mul_operand(e):
                         out.probe("scalar_multiple_operand")
+                    if '"side": "neg"' in json.dumps(op["expr"]) or '"side": "div"' in json.dumps(op["expr"]):
+                        out.probe("plain_series_operand")
                     if '"series"' in str(e).replace("'", '"'):
                         out.probe("series_leaf")
                     cur = ev_real_checked(e)
@@ -326,7 +342,7 @@ def check(sc):
                     if not rows:
                         continue
                     r = sub(op["seed"], "q")
-                    T = r.randint(1, 4)
+                    T = r.choice([1, 2, 3, 4, 4, 6, 8])
                     M = [[round(r.uniform(0, 32), 2) for _ in range(T)] for _ in stations]
                     idx = list(nw.constraint_index)
                     subset = None
@@ -337,6 +353,18 @@ def check(sc):
                     tsel = None
                     if op["times"]:
                         tsel = [r.randrange(T) for _ in range(r.randint(1, T))]
+                        tm = r.random()
+                        if tm < 0.25 and T >= 3:          # a window of consecutive periods listed in another order
+                            a_ = r.randrange(T - 2)
+                            b_ = r.randint(a_ + 2, T - 1)
+                            mid = list(range(a_ + 1, b_))
+                            r.shuffle(mid)
+                            tsel = [a_] + mid + [b_] if r.random() < 0.6 else r.sample(range(a_, b_ + 1), b_ - a_ + 1)
+                            out.probe("time_window_permuted")
+                        elif tm < 0.35:
+                            tsel = list(range(T - 1, -1, -1))[: r.randint(1, T)]      # descending
+                        elif tm < 0.45:
+                            tsel = list(range(0, T, 2))                                # strided
                         out.probe("time_subset_query")
                     got = nw.constraint_current(np.array(M), constraints=subset, time_indices=tsel, linear=op["linear"])
                     by = {x["name"]: x for x in rows}
